@@ -86,8 +86,12 @@ class GenericResolver(Generic[K, M]):
         if not hasattr(tp, "__orig_bases__"):
             return members_storage
 
+        # ``class Child(Parent)`` with a bare generic parent has no own ``__orig_bases__``,
+        # attribute lookup would return ``__orig_bases__`` of the parent
+        orig_bases = tp.__orig_bases__ if "__orig_bases__" in vars(tp) else tp.__bases__
+
         bases_members: dict[K, TypeHint] = {}
-        for base in reversed(tp.__orig_bases__):
+        for base in reversed(orig_bases):
             bases_members.update(self.get_resolved_members(base).members)
 
         return replace(
